@@ -20,6 +20,14 @@ global size_of usize == 8;
 //@ end
 //@ extract merkledb/src/chunk_iterator.rs struct Chunk
 //@ end
+//@ extract cas_object/src/cas_object_format.rs type CasObjectIdent
+//@ end
+//@ extract cas_object/src/cas_object_format.rs const CAS_OBJECT_FORMAT_BOUNDARIES_VERSION
+//@ end
+//@ extract cas_object/src/cas_object_format.rs struct CasObjectInfoV1
+//@ end
+//@ extract cas_object/src/cas_object_format.rs struct CasObject
+//@ end
 //@ extract merkledb/src/constants.rs const TARGET_CDC_CHUNK_SIZE
 //@ end
 //@ extract merkledb/src/constants.rs const MAXIMUM_CHUNK_MULTIPLIER
@@ -205,7 +213,7 @@ impl MerkleNode {
 // the root-hash comparison at the end of the streaming validator
 //@ extract cas_object/src/validate_xorb_stream.rs region _validate_cas_object_from_async_read
 //@ from `let mut db = MerkleMemDB::default();`
-//@ to-before `let cas_object = maybe_cas_object`
+//@ to-before `let cas_object =` #2
 //@ sig `fn vx_stream_root_check(chunk_hash_and_size: Vec<Chunk>, hash: &MerkleHash) -> (r: Result<(), CasObjectError>)`
 //@ epilogue `Ok(())`
 //@ rules R15
@@ -213,6 +221,130 @@ impl MerkleNode {
     ensures
         /*@C06*/ r is Ok ==> xorb_root(chunk_pairs(chunk_hash_and_size@)) == *hash,
         /*@C08*/ r matches Err(e) ==> e is FormatError,
+//@ end
+
+// ==== the footer generated for footer-less / version-0 streams: create_cas_object_from_parts ====================================================
+pub open spec fn hash_section_len(nh: nat) -> nat { 7 + 1 + 4 + 32 * nh }
+pub open spec fn boundary_section_len(nb: nat, nu: nat) -> nat { 7 + 1 + 4 + 4 * nb + 4 * nu + 4 + 4 + 4 + 16 }
+spec fn info_offsets_filled(s: CasObjectInfoV1) -> bool {
+    &&& s.boundary_section_offset_from_end == boundary_section_len(s.chunk_boundary_offsets@.len(), s.unpacked_chunk_offsets@.len())
+    &&& s.hashes_section_offset_from_end == hash_section_len(s.chunk_hashes@.len()) + boundary_section_len(s.chunk_boundary_offsets@.len(), s.unpacked_chunk_offsets@.len())
+}
+spec fn len_sum(s: Seq<Chunk>, i: int) -> nat decreases i {
+    if i <= 0 { 0 } else { len_sum(s, i - 1) + s[i - 1].length as nat }
+}
+proof fn lemma_len_sum_mono(s: Seq<Chunk>, i: int, j: int)
+    requires i <= j,
+    ensures len_sum(s, i) <= len_sum(s, j),
+    decreases j - i,
+{ if i < j { lemma_len_sum_mono(s, i, j - 1); } }
+impl CasObjectInfoV1 {
+    // both under contract in U-XORBIDX (Default: empty tables, version-1 constants; fill_in_boundary_offsets: offsets_filled + frame)
+    #[verifier::external_body]
+    fn default() -> (r: Self)
+        ensures r.chunk_hashes@.len() == 0, r.chunk_boundary_offsets@.len() == 0, r.unpacked_chunk_offsets@.len() == 0,
+            r.boundaries_version == CAS_OBJECT_FORMAT_BOUNDARIES_VERSION, r.num_chunks == 0,
+    { unimplemented!() }
+    #[verifier::external_body]
+    fn fill_in_boundary_offsets(&mut self)
+        requires hash_section_len(old(self).chunk_hashes@.len()) + boundary_section_len(old(self).chunk_boundary_offsets@.len(), old(self).unpacked_chunk_offsets@.len()) <= u32::MAX,
+        ensures info_offsets_filled(*final(self)),
+            *final(self) == (CasObjectInfoV1 { boundary_section_offset_from_end: final(self).boundary_section_offset_from_end,
+                hashes_section_offset_from_end: final(self).hashes_section_offset_from_end, ..*old(self) }),
+    { unimplemented!() }
+}
+
+// the value produced by create_cas_object_from_parts, whatever its return type (`Result<CasObject>` since f189f65, plain `CasObject` before):
+// lets one contract text be checked against both versions of the function (so that reverting the fix is decided, not a type error)
+pub trait VxCreated { spec fn created(&self) -> Option<CasObject>; }
+impl VxCreated for CasObject { open spec fn created(&self) -> Option<CasObject> { Some(*self) } }
+impl VxCreated for Result<CasObject, CasObjectError> { open spec fn created(&self) -> Option<CasObject> { match *self { Ok(c) => Some(c), Err(_) => None } } }
+
+// R7 outline of the combinator chain introduced by f189f65 (body = the original expression after R15; contract assumed)
+#[verifier::external_body]
+fn vx_checked_prefix(prefixsum: u32, length: usize) -> (r: Result<u32, CasObjectError>)
+    ensures match r {
+        Ok(v) => v == prefixsum + length && prefixsum + length <= u32::MAX,
+        Err(e) => prefixsum + length > u32::MAX && e is FormatError,
+    }
+{
+    u32::try_from(length)
+        .ok()
+        .and_then(|len| prefixsum.checked_add(len))
+        .ok_or_else(|| { CasObjectError::FormatError(vx_anyhow()) })
+}
+
+//@ extract cas_object/src/validate_xorb_stream.rs fn create_cas_object_from_parts
+//@ ret r
+//@ rules R15 R4d R4e
+//@ optsubst `Result<CasObject>` => `Result<CasObject, CasObjectError>` :: expansion of the crate-local alias `type Result<T>` (error.rs:35)
+//@ optsubst `u32::try_from(chunk.length) .ok() .and_then(|len| unpacked_offset.checked_add(len)) .ok_or_else(|| { CasObjectError::FormatError(vx_anyhow()) })` => `vx_checked_prefix(unpacked_offset, chunk.length)` :: R7 outline: Option/Result combinator chain with closures (Verus accepts it but has no specs for try_from/ok/and_then); assumed = checked u32 addition, overflow -> FormatError (same outline as in U-XORBVAL)
+//@ contract
+    requires
+        // (no bound on the decoded total: since f189f65 the running sum is a checked u32 accumulation that rejects)
+        // (D2) u32 arithmetic of num_chunks and of fill_in_boundary_offsets (92 + 40 n <= u32::MAX)
+        hash_section_len(chunk_hash_and_size@.len()) + boundary_section_len(compressed_chunk_boundary_offsets@.len(), chunk_hash_and_size@.len()) <= u32::MAX,
+    ensures
+        r.created() matches Some(cas) ==> ({
+            let n = chunk_hash_and_size@.len();
+            &&& /*@C07,C08*/ cas.info.cashash == *hash && cas.info_length == 0 && cas.info.num_chunks == n
+            &&& /*@C07,C08*/ cas.info.chunk_boundary_offsets@ == compressed_chunk_boundary_offsets@
+            &&& /*@C07,C08*/ cas.info.chunk_hashes@.len() == n && forall|i: int| 0 <= i < n ==> cas.info.chunk_hashes@[i] == chunk_hash_and_size@[i].hash
+            // the generated unpacked offsets are the EXACT prefix sums of the decoded chunk lengths (no wrap: each fits u32)
+            &&& /*@C08*/ cas.info.unpacked_chunk_offsets@.len() == n
+                && forall|i: int| 0 <= i < n ==> cas.info.unpacked_chunk_offsets@[i] == len_sum(chunk_hash_and_size@, i + 1)
+            &&& /*@C08*/ len_sum(chunk_hash_and_size@, n as int) <= u32::MAX
+            &&& /*@C07*/ cas.info.boundaries_version == CAS_OBJECT_FORMAT_BOUNDARIES_VERSION && info_offsets_filled(cas.info)
+        }),
+        // a total that does not fit is rejected with a format error (never wrapped)
+        /*@C08*/ len_sum(chunk_hash_and_size@, chunk_hash_and_size@.len() as int) > u32::MAX ==> r.created() is None,
+//@ loop 1
+        invariant
+            vx_c@.len() == vx_j, forall|i: int| 0 <= i < vx_j ==> vx_c@[i] == chunk_hash_and_size@[i].hash,
+//@ loop 2
+        invariant
+            unpacked_offset == len_sum(chunk_hash_and_size@, vx_j as int),
+            vx_c@.len() == vx_j, forall|i: int| 0 <= i < vx_j ==> vx_c@[i] == len_sum(chunk_hash_and_size@, i + 1),
+//@ end
+
+// ==== the public wrapper: format errors of the streaming validator become rejections ==========================================================
+//@ extract cas_object/src/error.rs trait Validate
+//@ subst `Result<Option<T>>` => `Result<Option<T>, CasObjectError>` :: expansion of the crate-local alias `type Result<T>` (error.rs:35)
+//@ end
+impl<T> Validate<T> for Result<T, CasObjectError> {
+//@ extract cas_object/src/error.rs in `impl<T> Validate<T> for Result<T>` fn ok_for_format_error
+//@ ret r
+//@ subst `Result<Option<T>>` => `Result<Option<T>, CasObjectError>` :: expansion of the crate-local alias `type Result<T>` (error.rs:35)
+//@ contract
+        ensures
+            match self {
+                Ok(v) => r == Ok::<Option<T>, CasObjectError>(Some(v)),
+                Err(CasObjectError::FormatError(_)) => r == Ok::<Option<T>, CasObjectError>(None),
+                Err(e) => r == Err::<Option<T>, CasObjectError>(e),
+            },
+//@ end
+}
+// the validator body: its chunk step, footer comparison (U-XORBVAL) and root comparison are the lifted regions; as a whole it is a stub here,
+// its result relation is left uninterpreted
+pub uninterp spec fn stream_validation_result(bytes: Seq<u8>, pos: nat, hash: MerkleHash, r: Result<(CasObject, Option<usize>), CasObjectError>) -> bool;
+#[verifier::external_body]
+fn _validate_cas_object_from_async_read<R: AsyncRead + Unpin>(reader: &mut R, hash: &MerkleHash) -> (r: Result<(CasObject, Option<usize>), CasObjectError>)
+    ensures final(reader).bytes() == old(reader).bytes(), stream_validation_result(old(reader).bytes(), old(reader).pos(), *hash, r),
+{ unimplemented!() }
+
+//@ extract cas_object/src/validate_xorb_stream.rs fn validate_cas_object_from_async_read
+//@ ret r
+//@ subst `Result<Option<(CasObject, Option<usize>)>>` => `Result<Option<(CasObject, Option<usize>)>, CasObjectError>` :: expansion of the crate-local alias `type Result<T>`
+//@ contract
+    ensures
+        final(reader).bytes() == old(reader).bytes(),
+        // exactly the inner result with format errors turned into `Ok(None)`: accepted values and non-format errors pass through unchanged
+        /*@C08*/ exists|inner: Result<(CasObject, Option<usize>), CasObjectError>| stream_validation_result(old(reader).bytes(), old(reader).pos(), *hash, inner)
+            && match inner {
+                Ok(v) => r == Ok::<Option<(CasObject, Option<usize>)>, CasObjectError>(Some(v)),
+                Err(CasObjectError::FormatError(_)) => r == Ok::<Option<(CasObject, Option<usize>)>, CasObjectError>(None),
+                Err(e) => r == Err::<Option<(CasObject, Option<usize>)>, CasObjectError>(e),
+            },
 //@ end
 
 } // verus!
